@@ -593,13 +593,14 @@ impl<'a> ConstraintValidator<'a> {
             if let (Some(max_len), Some(OwnedValue::Text(text))) =
                 (column.max_length(), values.get(idx))
             {
-                if text.len() > max_len as usize {
+                let char_count = text.chars().count();
+                if char_count > max_len as usize {
                     bail!(
                         "value for column '{}' in table '{}' exceeds maximum length {} (actual: {})",
                         column.name(),
                         self.table.name(),
                         max_len,
-                        text.len()
+                        char_count
                     );
                 }
             }
